@@ -356,12 +356,22 @@ func genHist(r *core.Rand, tier string) core.Case {
 	// (same CRC-32 / Adler-32 / FNV / byte sum / ends): a memo keyed on such an identity
 	// confuses them
 	var pair *keyPair
-	if ps := collisionPairs(); len(ps) > 0 && r.Chance(25) {
-		pair = &ps[r.Intn(len(ps))]
-		key = pair.k1
+	// a third walk inside a FAMILY of keys that agree on a PART of the key (a prefix, a suffix,
+	// the bytes without the length): a process-wide memo keyed on that part confuses them
+	var family [][]byte
+	switch r.Pick(25, 33, 42) {
+	case 0:
+		if ps := collisionPairs(); len(ps) > 0 {
+			pair = &ps[r.Intn(len(ps))]
+			key = pair.k1
+		}
+	case 1:
+		family = relatedKeys(r)
+		key = family[r.Intn(len(family))]
 	}
 	prev := append([]byte{}, key...)
 	n := r.Range(4, 12)
+	iv, nonce := r.Bytes(16), r.Bytes(12)
 	for i := 0; i < n; i++ {
 		if i > 0 && pair != nil {
 			prev = append([]byte{}, key...)
@@ -371,6 +381,11 @@ func genHist(r *core.Rand, tier string) core.Case {
 				} else {
 					key = pair.k1
 				}
+			}
+		} else if i > 0 && family != nil {
+			prev = append([]byte{}, key...)
+			if r.Chance(80) {
+				key = family[r.Intn(len(family))]
 			}
 		} else if i > 0 {
 			prev = append([]byte{}, key...)
@@ -394,7 +409,29 @@ func genHist(r *core.Rand, tier string) core.Case {
 		if r.Chance(30) && len(prev) == len(key) {
 			decKey = prev // message made under the key the buffer held before
 		}
-		iv, nonce, ad := r.Bytes(16), r.Bytes(12), genAD(r)
+		// iv / nonce: mostly new; sometimes the one of the previous call again (the same
+		// configuration twice: a retained, stateful BlockMode would continue its chain); the
+		// nonce sometimes of ANOTHER LENGTH than before (a memo of AEADs keyed without the nonce
+		// size hands out one built for the other size), related to the previous one by content
+		// (a prefix of it / it followed by zeros) or not
+		if !r.Chance(15) {
+			iv = r.Bytes(16)
+		}
+		switch r.Pick(15, 50, 20, 15) {
+		case 0: // unchanged
+		case 1:
+			nonce = r.Bytes(12)
+		case 2:
+			nonce = r.Bytes([]int{1, 7, 8, 11, 13, 16, 17, 32}[r.Intn(8)])
+		case 3:
+			nl := []int{8, 12, 13, 16, 24}[r.Intn(5)]
+			if nl <= len(nonce) {
+				nonce = append([]byte{}, nonce[:nl]...)
+			} else {
+				nonce = append(append([]byte{}, nonce...), make([]byte, nl-len(nonce))...)
+			}
+		}
+		ad := genAD(r)
 		pt := r.Bytes(genLen(r))
 		lay := layout(r)
 		switch r.Pick(25, 25, 25, 25) {
@@ -406,11 +443,69 @@ func genHist(r *core.Rand, tier string) core.Case {
 			lines = append(lines, fmt.Sprintf("gcmenc %s %s %s %s %s", lay, hx(key), hx(nonce), hx(ad), hx(pt)))
 		case 3:
 			blk, _ := aes.NewCipher(decKey)
-			g, _ := cipher.NewGCM(blk)
+			g, _ := cipher.NewGCMWithNonceSize(blk, len(nonce))
 			lines = append(lines, fmt.Sprintf("gcmdec %s %s %s %s %s", lay, hx(key), hx(nonce), hx(ad), hx(g.Seal(nil, nonce, pt, ad))))
 		}
 	}
 	return core.Case{Lines: lines, Tag: "history"}
+}
+
+// ---------- keys that agree on a PART of the key (process-wide state keyed by part of the input)
+
+// keyParts: the parts of a key a process-wide memo of expanded keys / AEADs might be keyed on
+// instead of the whole key (bytes AND length).  Each is mirrored by a Lean definition in
+// Model/C08Memo.lean, where the collisions built below are theorems (`ident…_collides`) and
+// c08_memo_conflation_is_a_two_call_history says that any memo keyed on a part that two
+// configurations with different answers share fails on the 2-call history made of them.
+//
+//	nolen    the bytes copied into a [32]byte (the length is lost: k and k‖00…00 agree)
+//	first16  the first 16 bytes (AES-128 "session part"; k16, k16‖x, k16‖y agree)
+//	first24  the first 24 bytes
+//	last16   the last 16 bytes
+//	nozeros  the bytes with trailing zeros trimmed (k and k‖00…00 agree, 00…00 of all sizes agree)
+//
+// relatedKeys builds, from fresh random material (so that no earlier case of the process used a
+// related key), a family of 7-10 DIFFERENT legal keys any two of which agree on at least one part.
+func relatedKeys(r *core.Rand) [][]byte {
+	cat := func(xs ...[]byte) []byte {
+		var o []byte
+		for _, x := range xs {
+			o = append(o, x...)
+		}
+		return o
+	}
+	z := func(n int) []byte { return make([]byte, n) }
+	k16 := r.Bytes(16)
+	if r.Chance(10) {
+		k16 = z(16) // all-zero keys of the three sizes
+	}
+	a8, b8, c8 := r.Bytes(8), r.Bytes(8), r.Bytes(8)
+	fam := [][]byte{
+		k16,                  // AES-128
+		cat(k16, z(8)),       // nolen / nozeros / first16 with k16
+		cat(k16, z(16)),      // nolen / nozeros / first16 / first24 with the two above
+		cat(k16, a8),         // first16
+		cat(k16, a8, z(8)),   // nolen with k16‖a8; first16, first24
+		cat(k16, a8, b8),     // first24 with k16‖a8…, first16
+		cat(k16, c8, b8),     // first16 only, same length as the one above
+		cat(a8, k16),         // last16 with k16 (another size)
+		cat(b8, c8, k16),     // last16
+		cat(c8, a8, k16),     // last16, same length as the one above
+	}
+	// dedupe (the all-zero base makes some coincide)
+	var out [][]byte
+	for _, k := range fam {
+		dup := false
+		for _, o := range out {
+			if bytes.Equal(o, k) {
+				dup = true
+			}
+		}
+		if !dup {
+			out = append(out, k)
+		}
+	}
+	return out
 }
 
 // ---------- keys that a content-hash-keyed memo cannot tell apart
@@ -820,6 +915,91 @@ func corpus() []core.Case {
 		cs = append(cs, core.Case{Lines: []string{"@ C08 hist", mkH(a, kp.k1, kp.k1, 20), mkH(b, kp.k2, kp.k2, 33),
 			mkH("gcmdec", kp.k2, kp.k1, 5), mkH("cbcenc", kp.k1, kp.k1, 16), mkH("cbcdec", kp.k2, kp.k2, 7),
 			mkH("gcmenc", kp.k1, kp.k1, 0), mkH("gcmenc", kp.k2, kp.k2, 0)}, Tag: "history"})
+	}
+	// KEYS THAT AGREE ON A PART, enumerated (process-wide state keyed by part of the input): for every
+	// kind of relation (one key the other followed by zeros — 16→24, 16→32, 24→32, all-zero keys;
+	// same first 16 / first 24 bytes across and within sizes; same last 16 bytes) and BOTH orders,
+	// the same helper called under key A then under key B with everything else equal (a memo that
+	// confuses the two gives B's call A's answer), then a message made under B that must open under
+	// B and one made under A that must NOT open under B; CBC and GCM
+	{
+		cat := func(xs ...[]byte) []byte {
+			var o []byte
+			for _, x := range xs {
+				o = append(o, x...)
+			}
+			return o
+		}
+		z := func(n int) []byte { return make([]byte, n) }
+		// fresh material per (relation, order): no two grid cases share a key part (except the
+		// all-zero keys), so a case does not depend on what an earlier one left in a memo
+		mkRel := func(v int) [][2][]byte {
+			b16, x8, y8, w8 := seqBytes(16, byte(7*v)), seqBytes(8, byte(0xb1+5*v)), seqBytes(8, byte(0x3d+11*v)), seqBytes(8, byte(0x59+13*v))
+			return [][2][]byte{
+				{b16, cat(b16, z(8))}, {b16, cat(b16, z(16))}, {cat(b16, x8), cat(b16, x8, z(8))}, {cat(b16, z(8)), cat(b16, z(16))},
+				{z(16), z(24)}, {z(16), z(32)}, {z(24), z(32)},
+				{b16, cat(b16, x8)}, {b16, cat(b16, x8, y8)}, {cat(b16, x8), cat(b16, x8, y8)},
+				{cat(b16, x8), cat(b16, y8)}, {cat(b16, x8, y8), cat(b16, y8, x8)}, {cat(b16, x8, y8), cat(b16, x8, w8)},
+				{b16, cat(x8, b16)}, {b16, cat(x8, y8, b16)}, {cat(x8, b16), cat(y8, b16)}, {cat(x8, y8, b16), cat(y8, w8, b16)},
+			}
+		}
+		for ri := range mkRel(0) {
+			for ord := 0; ord < 2; ord++ {
+				p := mkRel(1 + 2*ri + ord)[ri]
+				ka, kb := p[ord], p[1-ord]
+				nn := seqBytes([]int{12, 12, 8, 16}[(ri+ord)%4], byte(0x70+ri))
+				mkG := func(op string, k, msgKey []byte, n int) string {
+					pt := seqBytes(n, 0x31)
+					if op == "gcmenc" {
+						return fmt.Sprintf("gcmenc %s %s %s 6164 %s", []string{"fresh", "inplace"}[(ri+n)%2], hx(k), hx(nn), hx(pt))
+					}
+					blk, _ := aes.NewCipher(msgKey)
+					g, _ := cipher.NewGCMWithNonceSize(blk, len(nn))
+					return fmt.Sprintf("gcmdec %s %s %s 6164 %s", []string{"inplace", "fresh"}[(ri+n)%2], hx(k), hx(nn), hx(g.Seal(nil, nn, pt, []byte("ad"))))
+				}
+				cs = append(cs, core.Case{Lines: []string{"@ C08 hist",
+					mkG("gcmenc", ka, ka, 20), mkG("gcmenc", kb, kb, 20), mkG("gcmdec", kb, kb, 5), mkG("gcmdec", kb, ka, 5),
+					mkG("gcmdec", ka, ka, 17), mkG("gcmenc", ka, ka, 0)}, Tag: "history"})
+				cs = append(cs, core.Case{Lines: []string{"@ C08 hist",
+					mkH("cbcenc", ka, ka, 20), mkH("cbcenc", kb, kb, 20), mkH("cbcdec", kb, kb, 5), mkH("cbcdec", kb, ka, 5),
+					mkH("cbcdec", ka, ka, 16), mkG("gcmdec", ka, ka, 3), mkG("gcmdec", kb, kb, 3), mkH("cbcenc", ka, ka, 0)}, Tag: "history"})
+			}
+		}
+		// THE SAME KEY, ANOTHER NONCE LENGTH / ANOTHER IV, enumerated: an AEAD retained for the key
+		// alone was built for the first nonce size (Seal/Open then panic or answer for the wrong
+		// size); a BlockMode retained for the key alone carries the first call's iv and chain.
+		// Nonces related by content (a prefix / zero extension of the other) and unrelated.
+		for ki, ks := range []int{16, 24, 32} {
+			k := seqBytes(ks, byte(0x13+ki))
+			blk, _ := aes.NewCipher(k)
+			n12 := seqBytes(12, 0x44)
+			for pi, np := range [][2][]byte{{n12, n12[:8]}, {n12, cat(n12, z(4))}, {n12, seqBytes(13, 0x90)}, {seqBytes(16, 0x91), seqBytes(1, 0x92)},
+				{n12, cat(n12, z(20))}, {seqBytes(7, 0x93), seqBytes(11, 0x94)}} {
+				for ord := 0; ord < 2; ord++ {
+					na, nb := np[ord], np[1-ord]
+					ga, _ := cipher.NewGCMWithNonceSize(blk, len(na))
+					gb, _ := cipher.NewGCMWithNonceSize(blk, len(nb))
+					pt := seqBytes(19+pi, 0x31)
+					lay := []string{"fresh", "inplace"}[(ki+pi+ord)%2]
+					cs = append(cs, core.Case{Lines: []string{"@ C08 hist",
+						fmt.Sprintf("gcmenc %s %s %s 6164 %s", lay, hx(k), hx(na), hx(pt)),
+						fmt.Sprintf("gcmenc %s %s %s 6164 %s", lay, hx(k), hx(nb), hx(pt)),
+						fmt.Sprintf("gcmdec %s %s %s 6164 %s", lay, hx(k), hx(na), hx(ga.Seal(nil, na, pt, []byte("ad")))),
+						fmt.Sprintf("gcmdec %s %s %s 6164 %s", lay, hx(k), hx(nb), hx(gb.Seal(nil, nb, pt, []byte("ad")))),
+						fmt.Sprintf("gcmdec %s %s %s 6164 %s", lay, hx(k), hx(nb), hx(ga.Seal(nil, na, pt, []byte("ad"))))}, Tag: "history"})
+				}
+			}
+			iva, ivb := seqBytes(16, 0x21), seqBytes(16, 0x22)
+			pt := seqBytes(33, 0x31)
+			cs = append(cs, core.Case{Lines: []string{"@ C08 hist",
+				fmt.Sprintf("cbcenc fresh %s %s %s", hx(k), hx(iva), hx(pt)),
+				fmt.Sprintf("cbcenc inplace %s %s %s", hx(k), hx(iva), hx(pt)), // the same configuration twice
+				fmt.Sprintf("cbcenc fresh %s %s %s", hx(k), hx(ivb), hx(pt)),
+				fmt.Sprintf("cbcdec inplace %s %s %s", hx(k), hx(ivb), hx(rawCBC(k, ivb, stdPad16(pt)))),
+				fmt.Sprintf("cbcdec fresh %s %s %s", hx(k), hx(ivb), hx(rawCBC(k, ivb, stdPad16(pt)))),
+				fmt.Sprintf("cbcdec fresh %s %s %s", hx(k), hx(iva), hx(rawCBC(k, iva, stdPad16(pt)))),
+				fmt.Sprintf("cbcenc fresh %s %s %s", hx(k), hx(iva), hx(pt))}, Tag: "history"})
+		}
 	}
 	// AFTER A FAILURE, enumerated: a valid call under key 1, then a call with key 2 (buffer
 	// overwritten in place) that must be rejected, then valid calls under key 2 — for every key
